@@ -454,6 +454,22 @@ def check_join_safety(ck: Checker, rid: str, p: Pair):
         if pth is not None and j.pending != ('fall',):
             probs.append(f'the join at L{j.lineno} can be reached without draining `{p.q}` first')
             break
+    # the stop flag must be set BEFORE the drain (otherwise the producer keeps refilling the queue while
+    # and after it is drained, and blocks in put): on abnormal exits for inline cleanups, always for finalisers
+    def sets_flag(n: Node):
+        a = header_expr(n)
+        return a is not None and any(method_of(c)[1] == 'set' and method_of(c)[0] is not None and sc.canon(method_of(c)[0]) == p.flag for c in calls_in(a))
+
+    setters = {n.id for n in cfg.nodes if sets_flag(n)}
+    for dl in drain_loops:
+        abnormal = p.fin is not None or (dl.pending is not None and dl.pending[0] == 'exc')
+        if not abnormal:
+            continue
+        guard_ok = (lambda e: not (p.fin is not None and cfg.nodes[e.src].kind == 'test' and isinstance(cfg.nodes[e.src].ast, ast.Compare) and dotted(cfg.nodes[e.src].ast.left) == p.flag and e.kind == 'T'))
+        pth = path_avoiding(cfg, [cfg.entry], {dl.id}, avoid=setters, edge_ok=guard_ok)
+        if pth is not None:
+            probs.append(f'the queue is drained (L{dl.lineno}) before the stop flag `{p.flag}` is set: the producer keeps pulling and refilling the queue during and after the drain, can block in put on the full queue, and the join never returns')
+            break
     # idiom (i): drain loop conditioned on producer liveness with timed gets
     def live_cond(n: Node):
         t = n.ast
